@@ -413,8 +413,8 @@ func CheckIndexLayout(dir string, keys, times bool) error {
 			return fmt.Errorf("segment %d: index has %d items, log has %d records", s.Base, len(items), len(s.Recs))
 		}
 		var runMax int64
-		carryMax := int64(-1) // the largest c still possible (-1 = unconstrained), c must also be >= carryMin
-		carryMin := int64(0)
+		carryMax, bounded := int64(0), false // the largest c still possible (once bounded), c must also be >= carryMin
+		carryMin := int64(0)                 // the carried value is a timestamp of an earlier item, or the initial 0
 		for i, r := range s.Recs {
 			it := items[i]
 			if it.Off != r.Off || it.Pos != r.Pos || (keys && it.KH != RefFNV1a64(r.Key)) {
@@ -432,18 +432,18 @@ func CheckIndexLayout(dir string, keys, times bool) error {
 				return fmt.Errorf("segment %d item %d: index timestamp %d is below the running maximum %d of the message times in the file", s.Base, i, it.TS, runMax)
 			case it.TS == runMax:
 				// c <= runMax
-				if carryMax < 0 || runMax < carryMax {
-					carryMax = runMax
+				if !bounded || runMax < carryMax {
+					carryMax, bounded = runMax, true
 				}
 			default:
 				// c == it.TS exactly
-				if it.TS < carryMin || (carryMax >= 0 && it.TS > carryMax) {
+				if it.TS < carryMin || (bounded && it.TS > carryMax) {
 					return fmt.Errorf("segment %d item %d: index timestamp %d is neither the running maximum %d of the message times in the file nor one carried value", s.Base, i, it.TS, runMax)
 				}
-				carryMin, carryMax = it.TS, it.TS
+				carryMin, carryMax, bounded = it.TS, it.TS, true
 			}
-			if carryMax >= 0 && carryMin > carryMax {
-				return fmt.Errorf("segment %d item %d: index timestamps are not a running maximum from one carried value", s.Base, i)
+			if bounded && carryMin > carryMax {
+				return fmt.Errorf("segment %d item %d: index timestamp %d (running maximum of the message times %d): not a running maximum from one carried value >= 0 (the carried value would have to be in [%d,%d])", s.Base, i, it.TS, runMax, carryMin, carryMax)
 			}
 		}
 	}
